@@ -8,4 +8,4 @@ for id in $PROP ${EXTRA:-}; do
   ./check $id quick > /tmp/s2.$ID.$id 2>&1; rc=$?
   echo "$ID check $id: rc=$rc violations=$(grep -c '^VIOLATION' /tmp/s2.$ID.$id) $(grep -m1 'what:' /tmp/s2.$ID.$id | cut -c1-230) $(grep -m1 INCONCLUSIVE /tmp/s2.$ID.$id)"
 done
-git -C /repo checkout -- .
+git -C /repo checkout -- . && git -C /repo clean -fdq
